@@ -110,6 +110,17 @@ def top(prov=frozenset()) -> AV:
     return AV(top=True, prov=frozenset(prov))
 
 
+def via(av: AV) -> AV:
+    """The value was read out of a mapping with computed keys: its provenance atoms are marked `("v", atom)`."""
+    if not av.prov:
+        return av
+    return replace(av, prov=frozenset(a if a and a[0] in ("v", "?") else ("v", a) for a in av.prov))
+
+
+def base_atom(a):
+    return a[1] if a and a[0] == "v" else a
+
+
 def join(*avs: AV) -> AV:
     avs = [a for a in avs if a is not None and not (a.bottom and not a.prov)]
     if not avs:
@@ -887,7 +898,7 @@ class Interp:
             ds = [n for n in av.refs if isinstance(n, Dict)]
             for kx, q in zip(p.keys, p.patterns):
                 kv = self.ev(kx, env, fr).single()
-                vals = [(n.fields[kv.v] if n.fields is not None and kv is not None and kv.v in n.fields else n.v) for n in ds]
+                vals = [(n.fields[kv.v] if n.fields is not None and kv is not None and kv.v in n.fields else via(n.v)) for n in ds]
                 self.bind_pattern(q, join(*vals), env, fr)
             if p.rest:
                 env[p.rest] = AV(refs=frozenset(ds))
@@ -991,7 +1002,7 @@ class Interp:
                 if isinstance(nd, Seq) and nd.items is not None and len(nd.items) == n and not starred:
                     parts = [join(p, x) for p, x in zip(parts, nd.items)]
                 elif isinstance(nd, View) and nd.kind == "pair" and n == 2:
-                    parts = [join(parts[0], replace(nd.d.k, uniq=v.uniq)), join(parts[1], nd.d.v)]
+                    parts = [join(parts[0], replace(nd.d.k, uniq=v.uniq)), join(parts[1], via(nd.d.v))]
                 else:
                     el = self.iterate(ref(nd), None, fr, None)
                     parts = [join(p, el) for p in parts]
@@ -1604,14 +1615,14 @@ class Interp:
                 if n.kind == "keys":
                     outs.append(n.d.k)
                 elif n.kind == "values":
-                    outs.append(n.d.v)
+                    outs.append(via(n.d.v))
                     unique = False
                 elif n.kind == "items":
                     pair = self.node(("pair", n.d.key), lambda n=n: View(("pair", n.d.key), n.d, "pair"))
                     outs.append(ref(pair))
                 else:
                     outs.append(n.d.k)
-                    outs.append(n.d.v)
+                    outs.append(via(n.d.v))
                     unique = False
             elif isinstance(n, File):
                 outs.append(top(self.content.prov))
@@ -1700,7 +1711,7 @@ class Interp:
                 if n.fields is not None and ck is not None and ck.v in n.fields:
                     outs.append(n.fields[ck.v])
                 else:
-                    outs.append(n.v)
+                    outs.append(via(n.v))
                 if n.factory is not None:
                     made = self.call_value(n.factory, [], {}, fr, e, tag=("factory", n.key))
                     self.grow_dict(n, k, made)
@@ -1720,7 +1731,7 @@ class Interp:
                     outs.append(self.group_value(n, None))
             elif isinstance(n, View) and n.kind == "pair":
                 ci = k.single()
-                outs.append(n.d.k if ci is not None and ci.v == 0 else n.d.v if ci is not None and ci.v == 1 else join(n.d.k, n.d.v))
+                outs.append(n.d.k if ci is not None and ci.v == 0 else via(n.d.v) if ci is not None and ci.v == 1 else join(n.d.k, via(n.d.v)))
             elif isinstance(n, (Cls, Lib)):
                 outs.append(ref(n))  # generic alias: list[str], re.Pattern[str]
             else:
@@ -2310,7 +2321,7 @@ class Interp:
         for d in ds:
             if meth == "get":
                 ck = a0.single()
-                v = d.fields[ck.v] if d.fields is not None and ck is not None and ck.v in d.fields else d.v
+                v = d.fields[ck.v] if d.fields is not None and ck is not None and ck.v in d.fields else via(d.v)
                 dflt = args[1] if len(args) > 1 else kwargs.get("default", NONE)
                 r = join(v.plain(), dflt.plain())
                 if dflt == NONE:
@@ -2320,7 +2331,7 @@ class Interp:
                 dflt = args[1] if len(args) > 1 else NONE
                 self.grow_dict(d, a0, dflt)
                 self.event("setdefault", dset, a0, ktxt, dflt, fr, e)
-                outs.append(d.v)
+                outs.append(via(d.v))
             elif meth in ("keys", "values", "items"):
                 outs.append(ref(self.node((meth, d.key), lambda d=d: View((meth, d.key), d, meth))))
             elif meth == "update":
@@ -2340,10 +2351,10 @@ class Interp:
             elif meth == "pop":
                 if len(args) < 2:
                     self.raise_("builtins.KeyError", "may", ("absent", dset, ktxt))
-                outs.append(join(d.v, args[1] if len(args) > 1 else BOT))
+                outs.append(join(via(d.v), args[1] if len(args) > 1 else BOT))
             elif meth == "popitem":
                 t = self.seq(fr, e, "tuple", "popitem")
-                t.items = [d.k, d.v]
+                t.items = [d.k, via(d.v)]
                 outs.append(ref(t))
             elif meth == "copy":
                 c = self.dict_(fr, e, "copy")
